@@ -549,6 +549,11 @@ func runCoordinator(args []string) int {
 	sort.Strings(order)
 	exit := 0
 	os.MkdirAll(replayDir(), 0o755)
+	if old, _ := filepath.Glob(filepath.Join(replayDir(), *prop+"-*.json")); len(old) > 0 {
+		for _, f := range old { // witnesses of the previous run of this property
+			os.Remove(f)
+		}
+	}
 	harnessBug := false
 	clusterSummary := []map[string]any{}
 	for i, key := range order {
@@ -557,8 +562,10 @@ func runCoordinator(args []string) int {
 			harnessBug = true
 		}
 		path := filepath.Join(replayDir(), fmt.Sprintf("%s-%016x.json", *prop, rt.HashStr(key)))
-		b, _ := json.MarshalIndent(f, "", " ")
-		os.WriteFile(path, b, 0o644)
+		if i < 500 { // a witness per cluster, but not an unbounded number of files
+			b, _ := json.MarshalIndent(f, "", " ")
+			os.WriteFile(path, b, 0o644)
+		}
 		clusterSummary = append(clusterSummary, map[string]any{"oracle": f.Oracle, "cluster": f.Cluster, "count": total.ClusterCount[key], "replay": path})
 		if f.Oracle == "uncaught-panic-in-harness" {
 			continue
